@@ -651,6 +651,11 @@ func c04SnapshotPersistFails(hist string, s *Store, classify func(error) string)
 		return cls + "(no-incremental-persist)"
 	}
 	c04Must(hist, "withdraw full-needed", s.snapshotStore.SetDueNext(snapshot.Incremental))
+	if err != nil && strings.Contains(err.Error(), "wait until the configuration entry") && staged() == before+1 {
+		// raft did not even invoke Persist (a configuration entry is ahead of the FSM): the
+		// WAL is retained all the same, by the other route
+		return cls + "(persist-not-invoked)"
+	}
 	if err == nil || !strings.Contains(err.Error(), "failed to persist snapshot") || staged() != before+1 {
 		panic(fmt.Sprintf("c04 harness: history %q: the persist was meant to fail with the WAL retained, but the snapshot returned %v and the staging directory went from %d to %d WAL files", hist, err, before, staged()))
 	}
